@@ -1270,3 +1270,57 @@ Lemma flip_example :
      (init_state (mkC MReusable OwTrue false 0 false)) [start_thread 7 [0; 1; 0]])))
   = [[[0; 0; 0; 0; 0]; [1; 0; 1; 1; 0]; [0; 9]]].
 Proof. vm_compute. reflexivity. Qed.
+
+(* ================================================================== *)
+(* the cache key of hash method 'a' determines the query up to what a positional path depends on *)
+From Coq Require Import Permutation.
+
+Lemma insert_by_perm {A} (le : A -> A -> bool) x l : Permutation (insert_by le x l) (x :: l).
+Proof.
+  induction l as [|y l IH]; cbn; auto.
+  destruct (le y x); auto.
+  eapply perm_trans; [apply perm_skip; exact IH|]. apply perm_swap.
+Qed.
+
+Lemma sort_by_perm_acc {A} (le : A -> A -> bool) l : forall acc,
+  Permutation (fold_left (fun acc x => insert_by le x acc) l acc) (l ++ acc).
+Proof.
+  induction l as [|x l IH]; intros acc; cbn; auto.
+  eapply perm_trans; [apply IH|].
+  eapply perm_trans; [apply Permutation_app_head; apply insert_by_perm|].
+  apply Permutation_sym. apply Permutation_middle.
+Qed.
+
+Lemma sort_by_perm {A} (le : A -> A -> bool) l : Permutation (sort_by le l) l.
+Proof. unfold sort_by. eapply perm_trans; [apply sort_by_perm_acc|]. now rewrite app_nil_r. Qed.
+
+(* equal keys => the same number of tensors and, POSITION BY POSITION, the same index multiset; the same output
+   indices; the same size of every index *)
+Theorem key_a_positional i1 o1 s1 i2 o2 s2 :
+  key_a i1 o1 s1 = key_a i2 o2 s2 ->
+  length i1 = length i2 /\
+  (forall k, Permutation (nth k i1 []) (nth k i2 [])) /\
+  Permutation o1 o2 /\ Permutation s1 s2.
+Proof.
+  unfold key_a. intros H. inversion H as [[Hi Ho Hs]]. clear H.
+  split; [|split; [|split]].
+  - rewrite <- (map_length sort_nat i1), <- (map_length sort_nat i2). now rewrite Hi.
+  - intros k.
+    assert (E : sort_nat (nth k i1 []) = sort_nat (nth k i2 [])).
+    { assert (E0 : nth k (map sort_nat i1) (sort_nat []) = nth k (map sort_nat i2) (sort_nat [])) by now rewrite Hi.
+      now rewrite !map_nth in E0. }
+    eapply perm_trans; [apply Permutation_sym; apply (sort_by_perm Nat.leb)|].
+    unfold sort_nat in E. rewrite E. apply sort_by_perm.
+  - eapply perm_trans; [apply Permutation_sym; apply (sort_by_perm Nat.leb)|].
+    unfold sort_nat in Ho. rewrite Ho. apply sort_by_perm.
+  - eapply perm_trans; [apply Permutation_sym; apply (sort_by_perm (fun a b => Nat.leb (fst a) (fst b)))|].
+    unfold sort_sizes in Hs. rewrite Hs. apply sort_by_perm.
+Qed.
+
+(* two orderings of one tensor list have different keys (the red-team key sorted the terms and made them equal) *)
+Lemma key_a_sees_tensor_order :
+  key_a_eqb [[0;1]; [1;2]; [2;3]] [0;3] [(0,2);(1,50);(2,3);(3,40)]
+            [[1;2]; [0;1]; [2;3]] [0;3] [(0,2);(1,50);(2,3);(3,40)] = false /\
+  key_a_eqb [[0;1]; [1;2]; [2;3]] [0;3] [(0,2);(1,50);(2,3);(3,40)]
+            [[1;0]; [2;1]; [2;3]] [3;0] [(3,40);(1,50);(2,3);(0,2)] = true.
+Proof. vm_compute. split; reflexivity. Qed.
